@@ -38,8 +38,9 @@ def loops_of(events: List[Event]) -> List[LoopSummary]:
     return out
 
 
-def calls_named(events: List[Event], bare: str) -> List[Event]:
-    return [e for e in events if e.kind == "call" and e.name and (e.name.split(":")[-1] == bare or e.name.split(":")[-1].split(".")[-1] == bare)]
+def calls_named(events: List[Event], bare: str, inlined: bool = False) -> List[Event]:
+    kinds = ("call", "enter") if inlined else ("call",)
+    return [e for e in events if e.kind in kinds and e.name and (e.name.split(":")[-1] == bare or e.name.split(":")[-1].split(".")[-1] == bare)]
 
 
 class BCAnalysis:
